@@ -68,6 +68,26 @@ fn main() {
     }
     Ok(())
   });
+  w("cd_id_constraints_at_deserialisation", || {
+    let did = "did:example:doc";
+    let svc = |frag: &str| format!(r#"{{"id":"{did}#{frag}","type":"X","serviceEndpoint":"https://example.com/"}}"#);
+    let cases: Vec<(String, bool, &str)> = vec![
+      (format!(r#"{{"id":"{did}","verificationMethod":[{}],"service":[{}]}}"#, jwk_method(did, "a"), svc("s")), true, "method and service with different ids"),
+      (format!(r#"{{"id":"{did}","verificationMethod":[{}],"service":[{}]}}"#, jwk_method(did, "a"), svc("a")), false, "service id equal to a general-purpose method id"),
+      (format!(r#"{{"id":"{did}","authentication":[{}],"service":[{}]}}"#, jwk_method(did, "a"), svc("a")), false, "service id equal to an embedded method id"),
+      (format!(r#"{{"id":"{did}","authentication":[{}],"assertionMethod":[{}]}}"#, jwk_method(did, "a"), jwk_method(did, "a")), false, "the same id embedded under two relationships"),
+      (format!(r#"{{"id":"{did}","authentication":[{}],"assertionMethod":["{did}#a"]}}"#, jwk_method(did, "a")), false, "a reference to an embedded method"),
+      (format!(r#"{{"id":"{did}","verificationMethod":[{}],"authentication":[{}]}}"#, jwk_method(did, "a"), jwk_method(did, "a")), false, "a general-purpose method id also embedded"),
+      (format!(r#"{{"id":"{did}","verificationMethod":[{}],"authentication":["{did}#a"],"assertionMethod":["{did}#a"]}}"#, jwk_method(did, "a")), true, "references to a general-purpose method from two relationships"),
+      (format!(r#"{{"id":"{did}","verificationMethod":[{},{}]}}"#, jwk_method(did, "a"), jwk_method(did, "a")), false, "two general-purpose methods with one id"),
+      (format!(r#"{{"id":"{did}","service":[{},{}]}}"#, svc("s"), svc("s")), false, "two services with one id"),
+    ];
+    for (json, want, what) in cases {
+      let got = CoreDocument::from_json(&json).is_ok();
+      if got != want { return Err(format!("{what}: accepted={got}, expected={want}")); }
+    }
+    Ok(())
+  });
   w("cd_attach_detach_exact", || {
     for (rel, name) in RELS { for (rel2, name2) in RELS {
       let mut d = doc();
